@@ -1,7 +1,6 @@
 import BytomModel.Drv.VMCommon
 /- driver mode c06: a `vm.Verify` case whose byte strings are laid out explicitly in memory,
-   evaluated on the HEAP instance `heapMemF goGrow` of the VM model (Go slices; growth policy of
-   the Go runtime; the in-place flag is not printed).
+   evaluated on the HEAP instance `heapMem goGrow` of the VM model (Go slices).
 
    op line:
      h <gasLimit> <arrays: hex;hex;…> <code> <args> <state> <txVersion> <blockHeight> <assetID>
@@ -62,14 +61,14 @@ def parseHCase (w : List String) : Option HCase :=
 
 /-- like `verifyLine`, also returning the final heap -/
 def verifyLineHeap (ctx : Context Slice) (mem0 : Heap) (limit : Int) : String × Option Heap :=
-  let M := heapMemF goGrow
-  let mem : FHeap := ⟨mem0, false⟩
+  let M := heapMem goGrow
+  let mem : Heap := mem0
   let fmt (e : Option Err) (gas : Int) (t : TraceSt) : String :=
     let en := match e with | none => "ok" | some e => e.name
     s!"{en} {gas} {t.lines} {t.hash.toNat} {t.last}"
   match initPushes M ctx ⟨mem, initFrame ctx limit⟩ with
   | .panic => (fmt (some .unexpected) 0 {}, none)
-  | .err e s => (fmt (some e) s.f.runLimit {}, some s.mem.heap)
+  | .err e s => (fmt (some e) s.f.runLimit {}, some s.mem)
   | .ok _ s =>
     match runTrace M ctx (stepBudget limit) (2 * stepBudget limit + 10) ⟨s.mem, s.f, []⟩ {} with
     | .watchdog => ("watchdog", none)
@@ -78,7 +77,7 @@ def verifyLineHeap (ctx : Context Slice) (mem0 : Heap) (limit : Int) : String ×
       let e' := match e with
         | some e => some e
         | none => if falseResult M mem' f then some .falseVMResult else none
-      (fmt e' f.runLimit t, some mem'.heap)
+      (fmt e' f.runLimit t, some mem')
 
 def step (_ : Unit) (line : String) : Unit × String :=
   let out := match words line with
